@@ -107,6 +107,10 @@ def unknown_matrix():
                 if "'" in pos.replace("@", "") and "'" in cmd:
                     continue  # would need nested single quotes
                 yield pos.replace("@", cmd)
+    # a safe program's name with a character in front or behind that Python calls whitespace and bash does not: another program
+    for pos in ("@", "true; @", "@ -la", "timeout 5 @"):
+        for name in ("\x0cls", "\u00a0ls", "\x85cat f", "\x0bls", "ls\x0c", "\u2003ls", "\x1fls", "pwd\u00a0"):
+            yield pos.replace("@", name)
     # help-looking words outside the documented help shape: a plain position, two more, every name spelling once
     for pos in ("@", "true && @", "timeout 5 @"):
         for name in ("zz_unknown_tool", "./zz_unknown_tool", "rmm"):
